@@ -24,11 +24,23 @@ package rfc3962
 //@ func crypto/rfc3962.EncryptMessage(key, message, usage, e) (iv, ct, err)
 //@   pure
 //@   trusted_frame returned slices are not tracked as fresh; in-place append into spare capacity cannot be excluded
+// RFC 3962 4 (property C08): key = DK(random-to-key(PBKDF2-HMAC-SHA1(secret, salt, iterations, keylength)), "kerberos"),
+// the iteration count being the 4-octet big-endian parameter with 0 meaning 2^32.
+//@ func crypto/rfc3962.S2KparamsToItertions(s2kparams) (r, err)
+//@   pure
+//@   ensures err == nil ==> len(s2kparams) == 8 && r == iters_3962(s2kparams)
+//@ func crypto/rfc3962.StringToPBKDF2(secret, salt, iterations, e) (r)
+//@   pure
+//@   trusted_frame returned slices are not tracked as fresh
+//@   requires tagof(e) == typeid("crypto.Aes128CtsHmacSha96") || tagof(e) == typeid("crypto.Aes256CtsHmacSha96")
+//@   ensures bytes(r) == pbkdf2(fid.crypto.sha1.New, bytes(secret), bytes(salt), iterations, et_keybytes(tagof(e)))
 //@ func crypto/rfc3962.StringToKey(secret, salt, s2kparams, e) (k, err)
 //@   pure
 //@   trusted_frame returned slices are not tracked as fresh; in-place append into spare capacity cannot be excluded
 //@   requires tagof(e) == typeid("crypto.Aes128CtsHmacSha96") || tagof(e) == typeid("crypto.Aes256CtsHmacSha96")
+//@   ensures err == nil ==> bytes(k) == s2k_3962(tagof(e), bytes(secret), bytes(salt), iters_3962(s2kparams))
 //@ func crypto/rfc3962.StringToKeyIter(secret, salt, iterations, e) (k, err)
 //@   pure
 //@   trusted_frame returned slices are not tracked as fresh; in-place append into spare capacity cannot be excluded
 //@   requires tagof(e) == typeid("crypto.Aes128CtsHmacSha96") || tagof(e) == typeid("crypto.Aes256CtsHmacSha96")
+//@   ensures err == nil ==> bytes(k) == s2k_3962(tagof(e), bytes(secret), bytes(salt), iterations)
